@@ -416,7 +416,9 @@ def accumulate(rep, prog, rule="ACCUMULATE"):
             key = "%s | try_units_ranged#%d" % (name.replace("jiff::", ""), k)
             loc = "%s:%s" % (t["span"]["file"], t["span"]["line"])
             v = T.at_call(bi, t, 2)
-            reads = [y for y in walk(v) if isinstance(y, tuple) and y and y[0] == "call" and y[1].endswith("::get_units_ranged")
+            from .term import inline_helpers
+            reads = [y for d_ in (0, 1) for y in walk(inline_helpers(v, prog, depth=d_))
+                     if isinstance(y, tuple) and y and y[0] == "call" and y[1].endswith("::get_units_ranged")
                      and len(y[2]) >= 2 and y[2][1] == unit]
             if reads:
                 rep.ok(rule, key, how="stores value + get_units_ranged(span, unit)", loc=loc)
